@@ -2,8 +2,8 @@ CONSTANTS MaxEntries = 2
  Allowances = {1, 2}
  Budget = 4
  Canonical = FALSE
- Flaw_SyntheticCaseOnErrorsOnly = FALSE
+ ClassSet = {"c0", "c1", "c2"}
  Emit = TRUE
 SPECIFICATION Spec
-INVARIANTS CountsOK VerdictOK LoopShape StopMeansPass EmitCase
+INVARIANTS CountsOK ExecsOK VerdictOK LoopShape StopMeansPass EmitCase
 CHECK_DEADLOCK FALSE
